@@ -1,5 +1,5 @@
 (* Props/C16.v — cw1: CanExecute predicts Execute. *)
-Require Import CwPlus.Params CwPlus.Base CwPlus.AMap CwPlus.Cw1Model CwPlus.Cw1Lemmas.
+Require Import CwPlus.Params CwPlus.Base CwPlus.AMap CwPlus.Cw1Model CwPlus.Cw1Lemmas CwPlus.Cw1Check CwPlus.Cw1CheckLemmas.
 Open Scope N_scope.
 
 (* for EVERY state of either proxy (reachable or not), every block, every (valid) sender and every
@@ -9,6 +9,10 @@ Theorem c16_main : forall st blk sender m,
   can_execute st blk sender m = is_ok (step st blk sender (Execute [m])).
 Proof. exact can_execute_predicts. Qed.
 
+(* the step contract S_C16 never fires on the model *)
+Theorem c16_contract_never_fires_on_model : forall st blk sender m,
+  s_c16 (Some (can_execute st blk sender m)) (is_ok (step st blk sender (Execute [m]))) = 0.
+Proof. exact s_c16_sound. Qed.
 Example c16_nonvacuous :
   exists st, instantiate (mkInit true [Some 1] true) = Ok st /\
     let st1 := run st [(mkBlock 1 1, 1, IncreaseAllowance (Some 2) (0, 10) (Some (AtHeight 5)), true);
@@ -19,3 +23,4 @@ Example c16_nonvacuous :
 Proof. eexists. split; [reflexivity|]. vm_compute. repeat split. Qed.
 
 Print Assumptions c16_main.
+Print Assumptions c16_contract_never_fires_on_model.
